@@ -202,6 +202,18 @@ check('C12', 'ppobj',
       'without newlines; one-line titles.',
       'DESIGN.md section 4, C12')
 
+check('C13', 'ppobj',
+      'TLA+ spec of the format-object life cycle (what str(table.fmt) must describe after any sequence of Construct / '
+      'Print / setter uses); TLC-generated life cycles replayed on real tables with the round-trip equalities '
+      'evaluated on real renderings after every action',
+      'All life cycles of 2 actions over one-column tables (fixed and ranged widths, modifiers, break-by, 5 limit '
+      'settings) exhaustively and TLC simulations of 6 actions over 2 columns incl. repeated fields, on tables of 2, 4 '
+      'and 6 records (so limits skip or do not skip).  After every action: PPTable(records, fmt=str(t.fmt)) and a '
+      'copy with copy.fmt = str(t.fmt) must render exactly like t; "", ";" and ";;" must change nothing; the shape of '
+      'str(t.fmt) is compared with the I-spec (drift only).',
+      'Trusted: TLC; deep copies to observe a table without printing it; fixed record set and field types.',
+      'DESIGN.md section 4, C13')
+
 ALL = ['C%02d' % i for i in range(1, 21)]
 
 
